@@ -27,7 +27,7 @@ META = {
     'bounds': 'H1: 2 foreign peers + optional own record; symbolic priorities, lifetimes (>=0 or missing -> 60), lastseen ages (>=0 or '
               'missing), our priority symbolic; prior toggle state symbolic. H2: lifetime symbolic >= 2 (0/1 cannot be renewed in time by '
               'construction: outside), jitter symbolic in [5,10], 3 renewals. H3: 2 operators, symbolic priorities (distinct), start '
-              'offsets, one graceful exit or kill, lifetime in cell.',
+              'offset <= 3 s, one graceful exit or kill within 8 s, lifetime in cell; H2b: request latency <= 3 s, stop within 3 s.',
     'outside': 'lifetime <= 1; more than 3 operators; wall-clock skew between operators; the watch stream of the peering resource (C19)',
     'stubs': ['peering.patching.patch_obj -> recorder / shared peering object', 'peering.datetime, peering.iso8601 -> affine shim',
               'random.randint -> symbolic jitter'],
@@ -345,6 +345,8 @@ def h_two(prio0: int, prio1: int, start1: int, exit0_at: int, kill0: bool, t0: b
     vkopf.begin_path()
     lifetime = vkopf.cell('lifetime', 12)
     kill0 = vkopf.pin('kill0', kill0)
+    if start1 > vkopf.cell('start_max', 3) or exit0_at > vkopf.cell('exit_max', 8):
+        return True         # keep-alives are periodic: every further period inside an unbounded instant is another case split
     try:
         log = run_two(prio0, prio1, start1, exit0_at, kill0, lifetime, ties=[t0, t1])
     except (Deadlock, Diverged, Livelock):
@@ -381,5 +383,5 @@ def obligations():
                  b_has_life=B, b_has_seen=B, own_present=B)
     obs.append(Ob('h_keepalive', {}, timeout=1500, twins=['withdrawn']))
     obs.append(Ob('h_keepalive', {'early': True}, timeout=1500, twins=['withdrawn_during_first_request']))
-    obs += split(Ob('h_two', {'lifetime': 12}, timeout=3400, path_timeout=300, tiers=('thorough',), twins=['killed', 'graceful']), kill0=[False, True])
+    obs += split(Ob('h_two', {'lifetime': 12}, timeout=900, path_timeout=300, tiers=('thorough',), twins=['killed', 'graceful']), kill0=[False, True])
     return obs
